@@ -254,6 +254,37 @@ Theorem C18_partial_remain_keeps_marks :
 Proof. exact partial_remain_keeps_marks. Qed.
 Print Assumptions C18_partial_remain_keeps_marks.
 
+(* decoding in several steps: a block returned by Content or PartialContent of ANY expandBody —
+   the remaining body of an earlier PartialContent included — has a body with NOTHING hidden
+   (expandChild passes on forEachCtx, iteration and marks, never hiddenAttrs / hiddenBlocks):
+   a name consumed at an outer level does not hide a nested attribute or block of that name,
+   in static children and in generated blocks alike *)
+Theorem C18_blocks_of_remaining_body_have_nothing_hidden :
+  (forall s b child i m,
+     expand_child (snd (eb_partial_content s b)) child i m = expand_child b child i m)
+  /\ (forall s eb blk,
+        In blk (xc_blocks (eb_content s eb)) \/ In blk (xc_blocks (fst (eb_partial_content s eb))) ->
+        match xb_body blk with
+        | XE e => eb_hattrs e = [] /\ eb_hblocks e = []
+        | XU (XE e) _ => eb_hattrs e = [] /\ eb_hblocks e = []
+        | XU (XU _ _) _ => False
+        end).
+Proof. exact (conj expand_child_of_remaining_body returned_blocks_have_nothing_hidden). Qed.
+Print Assumptions C18_blocks_of_remaining_body_have_nothing_hidden.
+
+(* `name = "x"  b { name = "x" }  dynamic "b" { for_each = ["a"]  content { name = b.value } }`:
+   PartialContent takes the outer `name`; the remaining body no longer has it, its blocks —
+   the static and the generated one — still expose theirs *)
+Example C18_example_nested_name_survives_outer_partial_content :
+  let s_name := mkSchema [(ms_name, false)] [] in
+  let '(c1, r) := xb_partial_content s_name (Expand ms_body []) in
+  map fst (xc_attrs c1) = [ms_name]
+  /\ map fst (xc_attrs (xb_content s_name r)) = []
+  /\ map (fun blk => map (fun a => (fst a, fst (xvalue [] (snd a)))) (xc_attrs (xb_content s_name (xb_body blk))))
+         (xc_blocks (xb_content (mkSchema [] [(str_b, 0)]) r))
+     = [[(ms_name, VStr str_x)]; [(ms_name, VStr str_a)]].
+Proof. exact nested_name_survives_outer_partial_content. Qed.
+
 (* the side condition [conforms] is needed *)
 Theorem C18_expand_equals_unroll_without_conforms_refuted :
   exists b c S rho,
